@@ -25,7 +25,7 @@ class C16(Prop):
     id = "C16"
     driver = "Metrics"
     quick_n = 220
-    thorough_n = 6000
+    thorough_n = 15000
     shrink_key = None
     rule = ("random valid level series (length 2..400; daily with gaps or intraday with several observations per day; "
             "with a risk-free rate or a benchmark series on the same index), every listed metric compared with the "
